@@ -388,6 +388,18 @@ Theorem c20_uncreatable_sink_no_report : forall f e pl p, decide f = Plan pl ->
 Proof. exact uncreatable_sink_no_report. Qed.
 Print Assumptions c20_uncreatable_sink_no_report.
 
+(* the diagnostics: a run prints at most one; the logger's fatal message (what a --log-file receives at the default level) has
+   exactly three causes - main's own rejection of --pretty / --brief, a dump that does not read, a dump that does not process *)
+Theorem c20_at_most_one_diagnostic : forall f e, (count_diag (fst (run f e)) <= 1)%nat.
+Proof. exact at_most_one_diagnostic. Qed.
+Print Assumptions c20_at_most_one_diagnostic.
+
+Theorem c20_logger_diagnostic_cause : forall f e, In (Diag Logger) (fst (run f e)) ->
+  (exists r, decide f = Rejected r /\ r <> UsageConflict) \/
+  (exists p, decide f = Plan p /\ (e_read e = false \/ (e_read e = true /\ p_process p = true /\ e_process e = false))).
+Proof. exact logger_diag_cause. Qed.
+Print Assumptions c20_logger_diagnostic_cause.
+
 (* ---- non-vacuity ---- *)
 Example c20_nonvacuous_prestate :
   let f := {| f_human := false; f_json := true; f_cyborg := None; f_dump := false; f_help_md := false;
